@@ -1248,6 +1248,24 @@ def resolve_zero_checksum(items):
     return ded
 
 
+_INNER_CACHE = {}
+
+
+def _ref_hrnp_checksum_is_zero(kname, fv, hv):
+    """reference-only: does the frame built from (inner PDU bytes, header vector) carry checksum 0x0000?"""
+    key = (kname, repr(sorted(fv.items())))
+    if key not in _INNER_CACHE:
+        try:
+            _INNER_CACHE[key] = KINDS[kname].build(fv).as_bytes()
+        except Exception:
+            _INNER_CACHE[key] = None
+    inner = _INNER_CACHE[key]
+    if inner is None:
+        return False
+    fr = bytes([0x7E, hv["version"], hv["block"], 0, hv["source"], hv["destination"]]) + hv["packet_number"].to_bytes(2, "big") + (12 + len(inner)).to_bytes(2, "big") + b"\0\0" + inner
+    return hrnp_checksum(fr) == 0
+
+
 def hstrp_space(rep, kinds):
     t = rep.thorough()
     reps = representatives(kinds)
@@ -1416,6 +1434,7 @@ def run(only=None):
             "walker (length field = total length, ones-complement checksum, inner bytes), checksum_correct after parse, re-serialisation, header and inner fields",
         )
         s.declared = len(items)
+        s.extra["frames_with_checksum_0000"] = sum(1 for k, f, hv in items if _ref_hrnp_checksum_is_zero(k, f, hv))
         for acc in par.pmap(w_hrnp, par.chunks(len(items), 128), nw):
             s.merge(acc)
         s.done()
